@@ -28,6 +28,12 @@ def jobs(tier):
                 b = 1 << 10          # symbolic base with a secret exponent: degree-15 terms, keep the quick tier quick
             js.append(dict(name="%s/n%d/plain" % (e.name, n), entry=e.name, backend="snarkjs",
                            cfg=dict(n=n, r=2, guard=None, bound=b), tier=tier, weight=(50 if heavy else 1) * n))
+    from .c01 import PRELUDE_SUBSET
+    for e in CAT.build(4, "quick"):
+        if e.name in PRELUDE_SUBSET and e.ref is not None:
+            for pre in (["false_region"], ["aborted_region"]):
+                js.append(dict(name="%s/n4/after-%s" % (e.name, pre[0]), entry=e.name, backend="snarkjs",
+                               cfg=dict(n=4, r=2, guard=None, bound=(1 << 64), prelude=pre), tier=tier, weight=2))
     js.append(dict(name="summaries/is_boolean_value+parse_boolean", entry=None, backend="snarkjs", cfg=dict(n=4),
                    tier=tier, kind="summaries", weight=1))
     return js
